@@ -155,4 +155,30 @@ CHECKS = {
         "level_note": "The signature module's Msg service is not registered with the app on this tree (DESIGN §2.6); its handlers are driven directly because the property anchors in them and registering the service is a one-line change.",
         "design_ref": "DESIGN.md §5 C09",
     },
+    "C18": {
+        "title": "Emitted events report the amounts that actually moved",
+        "level": "exploration",
+        "technique": "property-based testing (rapid): typed events parsed from block / message results and compared with supply, ledger and reference-model deltas",
+        "tests": [T("TestC18Mint", 800, 4000), T("TestC18Distribution", 500, 2500), T("TestC18Withdraw", 400, 2000, steps=50)],
+        "rule": "three generators: (a) minter configurations x block partitions as C02 - the Mint event amount must equal the block's supply delta; (b) sub-distributor configurations x inflows as C04 - per sub-distributor and block the Distribution and DistributionBurn event amounts must add up to the inflow minus what is left in MAIN and each event must equal share x inflow of the reference model (10^-6); (c) the vesting state machine as C05 - every withdraw-all and every implicit withdrawal inside a send must emit exactly one WithdrawAvailable per pool that paid > 0, carrying that pool's amount + denomination, none for pools that paid nothing. "
+                "Non-trivial = (a) at least two blocks minted, (b) at least three distribution/burn events, (c) an owner with at least two pools paying in one withdrawal. Distinct = SHA-256 of the case.",
+        "min_nontrivial_fraction": 0.2,
+        "min_class_fraction": {"owner_with_two_paying_pools": 0.05},
+        "level_text": "Event payloads are compared with independently observed state changes (bank supply, pool ledger deltas) and with the reference flow model.",
+        "level_note": "Same bounds as C02, C04 and C05.",
+        "design_ref": "DESIGN.md §5 C18",
+    },
+    "C19": {
+        "title": "Reported inflation equals the actual annualised emission rate",
+        "level": "exploration",
+        "technique": "property-based testing (rapid): metamorphic relation between the Inflation query and the coins minted over the next millisecond-aligned interval inside the same step",
+        "tests": [T("TestC19", 3000, 12000, qshards=2)],
+        "rule": "cases = valid minter configuration (as C02; mint denomination uc4e or uatom) x extra supply from the boundary mixture up to 10^30 x a period (4 of 5 draws prefer a minting period) x, for exponential periods, a step x millisecond-aligned instants t < t+d inside that step and period (d in {1 ms, maximal, uniform}), optionally preceded by an earlier block. Oracle: |minted(t,t+d) - inflation(t) x supply(t) x d/year| <= 2 + pred x 2ms/period + supply x 2x10^-18 x d/year + 10^-6; inflation == 0 before the start time and in no-minting periods. "
+                "Non-trivial = the predicted mint is at least 1000 base units. Distinct = SHA-256 of (configuration, period, t, d, extra supply).",
+        "min_nontrivial_fraction": 0.12,
+        "min_class_fraction": {"exp_later_step": 0.1, "exp_first_step": 0.03, "kind_linear": 0.1, "zero_before_start": 0.03, "zero_no_minting": 0.05},
+        "level_text": "The reported inflation is cross-checked against what the real minter then mints, through the real Inflation gRPC handler and the real BeginBlocker.",
+        "level_note": "The zero case 'a period whose end has passed' is not observable through the API (BeginBlock advances the period before any query can run at that block time) and is not exercised. Tolerance terms: two truncations, millisecond truncation of linear period endpoints, 18-digit resolution of the reported inflation.",
+        "design_ref": "DESIGN.md §5 C19",
+    },
 }
